@@ -155,6 +155,11 @@ def _stratum(name, r):
         verbose = True
         T = [_t(r, "u0", "small", kind="uninit"), _t(r, "e0", "medium", kind="ext"), _t(r, "w1", "medium"),
              _t(r, "t0", "medium", dtype="FLOAT", where="then"), _t(r, "u1", "big", dtype="FLOAT", kind="uninit")]
+    elif name == "uninit_unconsumed":
+        # an uninitialized initializer that no node consumes: only a graph output, or entirely unused
+        u = _t(r, "u0", "medium", dtype="FLOAT", kind="uninit")
+        u["use"] = r.choice(["dead", "output"])
+        T = [_t(r, "w0", "medium"), u, _t(r, "w1", "small")]
     elif name == "uninit_subgraph":
         wh = r.choice(["then", "else", "loop"])
         T = [_t(r, "w0", "medium"), _t(r, "u0", "medium", dtype="FLOAT", kind="uninit", where=wh), _t(r, "w1", "small")]
@@ -169,7 +174,7 @@ def _stratum(name, r):
 
 
 STRATA = ["inline_only", "threshold", "big_one", "big_two", "external_other_file", "subgraph", "verbose", "exotic",
-          "uninit_main", "uninit_main_verbose", "uninit_subgraph", "torch"]
+          "uninit_main", "uninit_main_verbose", "uninit_subgraph", "uninit_unconsumed", "torch"]
 EXTRA_STRATA = ["string_large"]
 
 
